@@ -762,6 +762,9 @@ func (w *vpWorld) do(r vpReq) (out *vpResp) {
 		delete(u.byRid, rid)
 		u.mu.Unlock()
 	}
+	if vpMon != nil {
+		vpMon.observe(w, req, r, out)
+	}
 	return out
 }
 
